@@ -253,8 +253,10 @@ class Check:
 
     def finish(self):
         wall = time.time() - self.t0
-        os.makedirs(os.path.join(VERIF, "replays"), exist_ok=True)
-        os.makedirs(os.path.join(VERIF, "evidence"), exist_ok=True)
+        evdir = os.environ.get("VERIF_EVIDENCE_DIR", os.path.join(VERIF, "evidence"))   # overridden by tools/eval_seed.py only
+        rpdir = os.environ.get("VERIF_REPLAY_DIR", os.path.join(VERIF, "replays"))
+        os.makedirs(rpdir, exist_ok=True)
+        os.makedirs(evdir, exist_ok=True)
         for key, what in sorted(self.known_hits.items()):
             print("KNOWN-FINDING: property=%s %s" % (self.prop, what))
         seen = set()
@@ -262,7 +264,7 @@ class Check:
             if v["key"] in seen:
                 continue
             seen.add(v["key"])
-            path = os.path.join(VERIF, "replays", "%s_%s_%d.json" % (self.prop, self.tier, len(seen)))
+            path = os.path.join(rpdir, "%s_%s_%d.json" % (self.prop, self.tier, len(seen)))
             json.dump(dict(property=self.prop, key=v["key"], what=v["what"], replay=v["replay"],
                            failing_input_found=v["found"], seed=self.seed), open(path, "w"), indent=1,
                       default=str)
@@ -281,7 +283,7 @@ class Check:
         cov.update(self.extra)
         ev = dict(property_id=self.prop, tier=self.tier, seed=self.seed, level="proof", coverage=cov,
                   assumptions=TRUSTED_BASE, wall_s=round(wall, 2), violations=len(seen))
-        json.dump(ev, open(os.path.join(VERIF, "evidence", self.prop + ".json"), "w"), indent=1, default=str)
+        json.dump(ev, open(os.path.join(evdir, self.prop + ".json"), "w"), indent=1, default=str)
         print("%s %s: %d theorems (%d discharged), %d evaluations, %d distinct non-trivial, %d violations, %.1fs"
               % (self.prop, self.tier, pr["obligations"], pr["discharged"], self.evaluations,
                  len(self.nontrivial), len(seen), wall))
